@@ -105,7 +105,7 @@ func zzFlat(msg netty.Message, capacity int) []byte {
 //
 //	path: 0 direct []byte, 1 *bytes.Reader, 2 fragmenting reader, 3 *bytes.Buffer,
 //	      4 length-field codec underneath, 5 delimiter codec underneath (string must not contain the delimiter),
-//	      6 varint codec underneath
+//	      6 varint codec underneath, 7 [][]byte of out-of-order views of one buffer
 func ZZ_C16_Text(path, big int) {
 	n := vrt.Choose(5)
 	if big != 0 {
@@ -127,6 +127,14 @@ func ZZ_C16_Text(path, big int) {
 		inbound = &zzFrag{data: zzFlat(w.out[0], n+1), splits: 2, eofWD: vrt.Choose(2) == 1}
 	case 3:
 		inbound = bytes.NewBuffer(zzFlat(w.out[0], n+1))
+	case 7: // [][]byte whose pieces are out-of-order views of one receive buffer
+		flat := zzFlat(w.out[0], n+1)
+		if len(flat) >= 3 {
+			arr := append([]byte{flat[0], flat[2], flat[1]}, flat[3:]...)
+			inbound = [][]byte{arr[0:1], arr[2:3], arr[1:2], arr[3:]}
+		} else {
+			inbound = [][]byte{flat}
+		}
 	case 4, 5, 6:
 		var fc netty.CodecHandler
 		switch path {
